@@ -21,7 +21,7 @@ RULE = ("GFF3 file databases with a depth-4 hierarchy, multi-parent and id-less 
         "fault cases: an update of n features whose one-shot source raises at position k for every k in 0..n, "
         "checklines 0 and 1; non-trivial history = contains an update after a delete or reopen; distinct by (base salt, word) "
         "and by (n, k, checklines)")
-REQUIRED = ["history steps applied", "content dumps compared with the model", ".bak compared with pre-operation content",
+REQUIRED = ["live-handle comparisons", "history steps applied", "content dumps compared with the model", ".bak compared with pre-operation content",
             "auto-generated keys checked for freshness", "faults injected", "faults injected mid-import (beyond the peek window)",
             "reopen steps"]
 ASSUMPTIONS = [
@@ -59,6 +59,16 @@ def line(r):
 
 def base_records(salt):
     rng = random.Random(salt)
+    if salt % 5 == 4:
+        # every feature has an explicit ID: the autoincrements table starts out empty
+        return [
+            rec("gene", 100, 900, [["ID", ["a"]], ["Name", ["A1", "A2"]]]),
+            rec("mRNA", 100, 900, [["ID", ["b"]], ["Parent", ["a"]]]),
+            rec("exon", 100, 300, [["ID", ["c"]], ["Parent", ["b"]], ["Note", ["n1"]]]),
+            rec("CDS", 150, 250, [["ID", ["d"]], ["Parent", ["c"]]]),
+            rec("exon", 400, 500, [["ID", ["e9"]], ["Parent", ["b", "ghost"]]]),
+            rec("gene", 1000, 2000, [["ID", ["g2"]], ["Note", ["x"]]]),
+        ]
     recs = [
         rec("gene", 100, 900, [["ID", ["a"]], ["Name", ["A1", "A2"]]]),
         rec("mRNA", 100, 900, [["ID", ["b"]], ["Parent", ["a"]]]),
@@ -262,19 +272,57 @@ def history(ctx, case):
                         ctx.violation(case, {"why": "auto-generated key %r was handed out earlier in this history" % k,
                                              "step": step, "trace": trace})
                         return
-            # the live object must agree with the file (look-ups through the open FeatureDB)
-            for k in list(model.feats)[:3]:
-                try:
-                    db[k]
-                except Exception as ex:
-                    ctx.violation(case, {"why": "db[%r] raised %r after step %d" % (k, ex, step), "trace": trace})
-                    return
+            # the live FeatureDB object must agree with the file it just changed
+            if not live_agrees(ctx, case, db, after, step, trace):
+                return
     finally:
         try:
             db.conn.close()
         except Exception:
             pass
         cleanup(dbfn)
+
+
+def live_agrees(ctx, case, db, dump, step, trace):
+    """Look-ups, iteration and summaries through the open handle == the content read independently from the file."""
+    byid = {f["id"]: f for f in dump["features"]}
+    try:
+        ctx.mon("live-handle comparisons")
+        for k in sorted(byid):
+            g = byid[k]
+            f = db[k]
+            got = {"seqid": f.seqid, "source": f.source, "featuretype": f.featuretype, "start": f.start, "end": f.end,
+                   "score": f.score, "strand": f.strand, "frame": f.frame}
+            exp = {c: g[c] for c in got}
+            attrs = [[a, list(f.attributes[a])] for a in f.attributes.keys()]
+            if f.id != k or got != exp or attrs != g["attributes"]:
+                ctx.violation(case, {"why": "db[%r] through the open handle differs from the stored feature" % k, "live": [got, attrs],
+                                     "stored": [exp, g["attributes"]], "step": step, "trace": trace})
+                return False
+        ids = sorted(f.id for f in db.all_features())
+        if ids != sorted(byid):
+            ctx.violation(case, {"why": "all_features() through the open handle differs from the file", "live": ids, "stored": sorted(byid),
+                                 "step": step, "trace": trace})
+            return False
+        types = sorted(set(g["featuretype"] for g in byid.values()))
+        if sorted(db.featuretypes()) != types or sorted(db.seqids()) != sorted(set(g["seqid"] for g in byid.values())) or \
+                db.count_features_of_type() != len(byid) or any(
+                    db.count_features_of_type(t) != sum(1 for g in byid.values() if g["featuretype"] == t) for t in types):
+            ctx.violation(case, {"why": "featuretypes()/seqids()/counts through the open handle differ from the file",
+                                 "live_types": sorted(db.featuretypes()), "stored_types": types, "step": step, "trace": trace})
+            return False
+        rel = set(tuple(r) for r in dump["relations"])
+        for k in sorted(byid)[:6]:
+            kids = sorted(c.id for c in db.children(k, level=1))
+            exp = sorted(c for (p, c, l) in rel if p == k and l == 1 and c in byid)
+            if kids != exp:
+                ctx.violation(case, {"why": "children(%r, level=1) through the open handle differs from the relations table" % k,
+                                     "live": kids, "stored": exp, "step": step, "trace": trace})
+                return False
+    except Exception as ex:
+        ctx.violation(case, {"why": "reading through the open handle raised %r after step %d" % (ex, step), "trace": trace})
+        return False
+    return True
 
 
 def check_bak(ctx, case, dbfn, before, step, trace):
